@@ -4,6 +4,7 @@ package parse
 
 import (
 	"bytes"
+	"unicode"
 	"unicode/utf8"
 )
 
@@ -12,7 +13,7 @@ import (
 func vnPosAlphabet(b []byte) {
 	for i := range b {
 		c := b[i]
-		vAssume(c == 'a' || c == '\n' || c == '\r' || c == 0xC3 || c == 0xA9 || c == 0xE2 || c == 0x80 || c == 0xA8 || c == 0x01 || c == 0x00)
+		vAssume(c == 'a' || c == '\n' || c == '\r' || c == 0xC3 || c == 0xA9 || c == 0xE2 || c == 0x80 || c == 0xA8 || c == 0x01 || c == 0x00 || c == 0x8B || c == 0xC2 || c == 0xAD)
 	}
 	vAssume(utf8.Valid(b))
 }
@@ -92,7 +93,9 @@ func VerifPosition() {
 				break
 			}
 			r, w := utf8.DecodeRune(b[i:])
-			if r < 0x20 || r == 0x7f {
+			if !unicode.In(r, unicode.L, unicode.M, unicode.N, unicode.P, unicode.S, unicode.Zs) {
+				// graphic characters by definition: categories L, M, N, P, S, Zs; everything else
+				// (controls, format characters, separators, unassigned) is shown as a middle dot
 				want = append(want, 0xC2, 0xB7)
 			} else {
 				want = append(want, b[i:i+w]...)
